@@ -689,6 +689,14 @@ fn check_fragments() {
     }
 }
 
+/// small hand-written modules that run right behind the fixtures: shapes the fragment library does not reach (index spaces of
+/// different sizes next to each other: a global index in a table initialiser that is larger than the number of functions, …)
+const EXTRA: &[&str] = &[
+    "(module (import \"e\" \"g0\" (global funcref)) (import \"e\" \"g1\" (global funcref)) (table 1 funcref (global.get 1)))",
+    "(module (import \"e\" \"g0\" (global funcref)) (import \"e\" \"g1\" (global funcref)) (import \"e\" \"g2\" (global funcref)) (func) (table 2 funcref (global.get 2)) (table 1 funcref (global.get 0)))",
+    "(module (import \"e\" \"g0\" (global i32)) (import \"e\" \"g1\" (global i32)) (import \"e\" \"g2\" (global i32)) (memory 1) (table 4 funcref) (func) (elem (offset (global.get 2)) func 0) (data (offset (global.get 1)) \"x\") (global i32 (global.get 2)))",
+];
+
 pub fn run(ctx: &mut Ctx) {
     let fam = "roundtrip";
     if std::env::var("ORCA_FRAGS").is_ok() {
@@ -701,7 +709,13 @@ pub fn run(ctx: &mut Ctx) {
             continue;
         }
         let mut r = Rng::new(ctx.seed, fam, case);
-        let (bytes, mm, label): (Vec<u8>, bool, String) = if (case as usize) < fx.len() {
+        let (bytes, mm, label): (Vec<u8>, bool, String) = if (case as usize) >= fx.len() && (case as usize) < fx.len() + EXTRA.len() {
+            let k = case as usize - fx.len();
+            match wat::parse_str(EXTRA[k]) {
+                Ok(b) => (b, true, format!("extra:{k}")),
+                Err(e) => panic!("roundtrip: extra module {k} does not parse: {e}"),
+            }
+        } else if (case as usize) < fx.len() {
             let p = &fx[case as usize];
             let b = if p.extension().and_then(|x| x.to_str()) == Some("wat") { wat::parse_file(p).ok() } else { std::fs::read(p).ok() };
             match b {
@@ -759,7 +773,7 @@ pub fn run(ctx: &mut Ctx) {
             ctx.count("skipped-extended-const");
             continue;
         }
-        ctx.count(if label.starts_with("zoo") { "input=generated" } else { "input=fixture" });
+        ctx.count(if label.starts_with("zoo") { "input=generated" } else if label.starts_with("extra") { "input=hand-written" } else { "input=fixture" });
         let show = |v: &Vec<String>| if v.is_empty() { "-".to_string() } else { v.join(",") };
         let shape = shape_of(&bytes).unwrap_or_else(|| "?".into());
         ctx.case_line(&format!("roundtrip {case} src={} vts={} consts={} groups={} shape={shape}", label.replace(' ', "_"), show(&conv_in.vts), show(&conv_in.consts), show(&conv_in.groups)));
